@@ -242,10 +242,12 @@ fn c07_history(v: &[Val]) -> Result<bool, String> {
         g = match code {
             0 => g.dual(), 1 => g.undual(), 2 => g.negate(), 3 => g.differentiate(), 4 => g.integrate(),
             5 => g.increment_blade(), 6 => g.decrement_blade(),
-            7 => g.rotate(x),
-            8 => Geonum::new_with_angle(g.mag, g.angle - x),
-            9 => g * Geonum::new_with_angle(1.0, x),
-            _ => g / Geonum::new_with_angle(1.0, x),
+            // the running value is held by value or by reference, step by step: every ownership spelling takes part in histories
+            7 => match i % 5 { 0 => g.rotate(x), 1 => Geonum::new_with_angle(g.mag, g.angle + x), 2 => Geonum::new_with_angle(g.mag, &g.angle + x),
+                               3 => Geonum::new_with_angle(g.mag, g.angle + &x), _ => Geonum::new_with_angle(g.mag, &g.angle * &x) },
+            8 => Geonum::new_with_angle(g.mag, match i % 6 { 0 => g.angle - x, 1 => &g.angle - x, 2 => g.angle - &x, 3 => &g.angle - &x, 4 => &g.angle / x, _ => g.angle / &x }),
+            9 => { let o = Geonum::new_with_angle(1.0, x); match i % 4 { 0 => g * o, 1 => &g * o, 2 => g * &o, _ => &g * &o } }
+            _ => { let o = Geonum::new_with_angle(1.0, x); match i % 4 { 0 => g / o, 1 => &g / o, 2 => g / &o, _ => &g / &o } }
         };
         canon(&g.angle).map_err(|e| format!("step {}: {}", i, e))?;
         let d: i128 = match code { 0 | 1 | 2 => 2, 3 | 5 => 1, 4 | 6 => 3, _ => -1 };
